@@ -21,6 +21,9 @@ pub struct SyncCfg {
     pub n_ordinal: u8,
     pub n_uuid: u8,
     pub max_id: u16,
+    /// world changes prefer zero values / empty items (crc-neutral differences)
+    #[serde(default)]
+    pub zero_bias: bool,
 }
 
 #[derive(Clone, Debug, Serialize, Deserialize, PartialEq)]
@@ -123,12 +126,15 @@ impl Engine for SyncEngine {
         let ack_reorder = f(&mut c, 50, 100, 900);
         let ack_rare = !fault_free && c.chance(1, 5); // long stretches without acks
         let big = c.chance(1, 4); // large worlds -> multi-part snapshots
+        // long stretch (> 100 ticks) in which no acknowledgement reaches the sender, after an initial acknowledged phase
+        let blackout = !fault_free && c.chance(1, 12);
         let cfg = SyncCfg {
             seed: c.next_u64(),
             first_tick: *c.pick(&[0i32, 1, 7, 1000, 3_000_000]),
             n_ordinal: c.range(1, 5) as u8,
             n_uuid: *c.pick(&[0u8, 1, 2, 2, 3, 5]),
             max_id: if big { c.range(40, 200) as u16 } else { *c.pick(&[1u16, 3, 8, 20, 65535]) },
+            zero_bias: blackout || c.chance(1, 8),
         };
         let n_ticks = match c.below(10) {
             0..=3 => c.range(2, 8),
@@ -143,7 +149,20 @@ impl Engine for SyncEngine {
             }
         };
         let mut ops = Vec::new();
-        for _ in 0..n_ticks {
+        let n_ticks = if blackout { c.range(108, 150) } else { n_ticks };
+        let ack_phase = if blackout { c.range(2, 6) } else { u64::MAX };
+        for tick_no in 0..n_ticks {
+            if tick_no >= ack_phase {
+                // blackout: snapshots keep flowing (with loss), no acknowledgement is sent
+                let muts = *s.pick(&[0u8, 1, 1, 2]);
+                ops.push(SyncOp::ServerTick { inc: 1, muts, salt: s.next_u64() as u32 });
+                if s.chance(1, 2) {
+                    ops.push(SyncOp::DeliverSnap { pick: 0 });
+                } else {
+                    ops.push(SyncOp::DropSnap { pick: 0 });
+                }
+                continue;
+            }
             let inc = match s.below(5) {
                 0 => s.range(2, 10) as u8,
                 1 => s.range(1, 3) as u8,
@@ -226,7 +245,7 @@ impl Engine for SyncEngine {
                                 }
                             }
                             _ => {
-                                let data: Vec<i32> = (0..sz).map(|_| r.i32_edge()).collect();
+                                let data: Vec<i32> = (0..sz).map(|_| if cfg.zero_bias && r.chance(3, 4) { 0 } else { r.i32_edge() }).collect();
                                 world.insert(key, data);
                             }
                         }
